@@ -155,12 +155,12 @@ def run(db, cx):
                   why="the propagated distance is bounded by the requested step; any other value "
                       "can exceed the physics limit")
         elif f.name == C + "UrbanMsc::limit_step":
-            ok = "F:" + C + "detail::MscStepToGeo::result_type::step" in a.get("refs", []) or \
-                a["t"].endswith(".step")
+            ok = (a.get("path") or {}).get("chain") == \
+                ["f:" + C + "detail::MscStepToGeo::result_type::step"]
             cx.ob("C05.3-step-length", "UrbanMsc::limit_step stores the geometric path", ok,
                   "argument %s" % a["t"], short(ev["loc"]))
         elif f.name == C + "UrbanMsc::apply_step":
-            ok = "F:" + C + "MscStep::true_path" in a.get("refs", [])
+            ok = (a.get("path") or {}).get("chain") == ["f:" + C + "MscStep::true_path"]
             cx.ob("C05.3-step-length", "UrbanMsc::apply_step restores the true path", ok,
                   "argument %s" % a["t"], short(ev["loc"]))
     effects.check_orders(cx, db, eff, "C05.3-step-length-orders", "raw setter / MSC step functions",
